@@ -31,7 +31,12 @@ Definition proj_peel (r : res (plain * option N * N)) : pobs :=
   | _ => ORej
   end.
 
-Record wcase := { w_accept : list mtp; w_default : mtp; w_auth : bool; w_kt : ktype; w_enc : encalg; w_style : kstyle;
+(* a send through SendToDID: the connection record read from the store before the call (None: no record), the
+   dispatcher's default profiles, whether the message is DIDComm v2, the record read from the store after the call;
+   w_accept is then the accept list of the resolved DID document *)
+Record todid := { td_found : option connrec; td_defaults : list mtp; td_v2msg : bool; td_after : option connrec }.
+
+Record wcase := { w_todid : option todid; w_accept : list mtp; w_default : mtp; w_auth : bool; w_kt : ktype; w_enc : encalg; w_style : kstyle;
                   w_spar : list N; w_payload : N; w_sender : N; w_rcpts : list N;
                   w_routing : list hop; w_sent : bool;
                   w_levels : list (list (list N * pobs)) }.
@@ -60,12 +65,51 @@ Fixpoint check_levels (ls : list layer) (w : wire) (levels : list (list (list N 
       end
   end.
 
+Definition mtp_eqb (a b : mtp) : bool :=
+  match a, b with
+  | M_V1Plain, M_V1Plain | M_RFC19, M_RFC19 | M_AIP2RFC19, M_AIP2RFC19 | M_AIP1, M_AIP1 | M_Indy, M_Indy
+  | M_V1Enc, M_V1Enc | M_V2EncV1Plain, M_V2EncV1Plain | M_AIP2RFC587, M_AIP2RFC587 | M_V2Enc, M_V2Enc
+  | M_V2Plain, M_V2Plain | M_DIDCommV2, M_DIDCommV2 | M_Other, M_Other => true
+  | _, _ => false
+  end.
+Fixpoint mtps_eqb (a b : list mtp) : bool :=
+  match a, b with
+  | [], [] => true
+  | x :: r, y :: t => mtp_eqb x y && mtps_eqb r t
+  | _, _ => false
+  end.
+Definition connrec_eqb (a b : connrec) : bool :=
+  mtps_eqb (cn_profiles a) (cn_profiles b) && Bool.eqb (cn_peer_initial a) (cn_peer_initial b).
+
+(* the accept list, the default and the packing mode of the Send the case amounts to; for SendToDID also: the record
+   in the store after the call is the one the model says *)
+Definition eff_accept (c : wcase) : list mtp :=
+  match w_todid c with
+  | None => w_accept c
+  | Some t => todid_accept [] (w_accept c) (conn_for (td_found t) (td_defaults t) (td_v2msg t))
+  end.
+Definition eff_default (c : wcase) : mtp :=
+  match w_todid c with None => w_default c | Some t => hd M_Other (td_defaults t) end.
+Definition eff_auth (c : wcase) : bool :=
+  match w_todid c with
+  | None => w_auth c
+  | Some t => w_auth c && todid_auth (conn_for (td_found t) (td_defaults t) (td_v2msg t)) (media_type (eff_accept c) (eff_default c))
+  end.
+Definition todid_store_ok (c : wcase) : bool :=
+  match w_todid c with
+  | None => true
+  | Some t => match td_after t with
+              | Some r => connrec_eqb r (conn_for (td_found t) (td_defaults t) (td_v2msg t))
+              | None => false
+              end
+  end.
+
 (* hop opacity on this case (C14/Opaque.v): the hypotheses of hop_opacity_dolev_yao hold for the coalition of every
    key pair that is not a recipient's against the payload's name and the recipients' CEK seed ([coalition_ok], sound by
    Props.send_ok_b_is_sound), and the whole view — recipients' envelope, every layer, every forward plaintext, written
    as terms — is safe for that coalition ([coalition_safe]; Props.coalition_cannot_derive) *)
 Definition opaque_case (c : wcase) (pf : profile) (ls : list layer) : bool :=
-  let cf := cfg_of pf (w_auth c) (w_kt c) (w_enc c) (w_style c) in
+  let cf := cfg_of pf (eff_auth c) (w_kt c) (w_enc c) (w_style c) in
   coalition_ok FFixed cf pf (w_spar c) (w_sender c) (w_payload c) (w_rcpts c) (w_routing c) rnd0 &&
   match pack cf (w_spar c) (pay_id (w_payload c)) (w_sender c) (w_rcpts c) rnd0 with
   | Ok w0 => coalition_safe cf (w_sender c) (w_payload c) (w_rcpts c) rnd0 w0 ls
@@ -73,10 +117,11 @@ Definition opaque_case (c : wcase) (pf : profile) (ls : list layer) : bool :=
   end.
 
 Definition check_wcase (c : wcase) : bool :=
-  match family (media_type (w_accept c) (w_default c)) with
+  todid_store_ok c &&
+  match family (media_type (eff_accept c) (eff_default c)) with
   | None => false
   | Some pf =>
-  match wrap FFixed (cfg_of pf (w_auth c) (w_kt c) (w_enc c) (w_style c)) pf (w_spar c) (w_payload c) (w_sender c) (w_rcpts c) (w_routing c) rnd0 with
+  match wrap FFixed (cfg_of pf (eff_auth c) (w_kt c) (w_enc c) (w_style c)) pf (w_spar c) (w_payload c) (w_sender c) (w_rcpts c) (w_routing c) rnd0 with
   | Ok (outer, ls) => w_sent c && check_levels ls outer (w_levels c) && opaque_case c pf ls
   | _ => negb (w_sent c)
   end
